@@ -21,6 +21,9 @@ import (
 
 const verifRoot = "/verif"
 
+// outRoot: where evidence and replay files go (a scratch directory when a check runs against a copy of the repository).
+var outRoot = verifRoot
+
 type SweepCfg struct {
 	Funcs   []string `json:"funcs"`   // short function keys, trailing * allowed
 	Classes []string `json:"classes"` // obligation classes claimed for these functions
@@ -316,6 +319,9 @@ func cmdCheck(args []string) {
 	if fs.NArg() < 1 {
 		usage()
 	}
+	if *repo != "/repo" {
+		outRoot = filepath.Join(os.TempDir(), "gowp-scratch-out")
+	}
 	prop := fs.Arg(0)
 	tier := "quick"
 	if fs.NArg() >= 2 {
@@ -358,10 +364,35 @@ func cmdCheck(args []string) {
 	if baseline == nil {
 		baseline = map[string]*ClaimEntry{}
 	}
-	// a claimed obligation that timed out is retried alone with a longer limit before it can become an alarm
+	// clause-level cleanliness: every instance (#n) of the obligation's base id was claimed at baseline. The clause is then
+	// claimed as a whole: a new instance of it (the same postcondition at a new return statement, the same invariant at a new
+	// back edge) that is not discharged is a violation of the clause
+	baseOf := func(id string) string {
+		if i := strings.LastIndex(id, "#"); i >= 0 {
+			return id[:i]
+		}
+		return id
+	}
+	cleanBase := map[string]bool{}
+	for id, ce := range baseline {
+		b := baseOf(id)
+		if _, ok := cleanBase[b]; !ok {
+			cleanBase[b] = true
+		}
+		if !ce.Claimed {
+			cleanBase[b] = false
+		}
+	}
+	// a claimed obligation (or a new instance of a claimed clause) that timed out is retried alone with a longer limit
+	// before it can become an alarm
 	var retry []*Obligation
 	for _, o := range cr.obls {
-		if ce := baseline[o.ID]; ce != nil && ce.Claimed && o.Result == "unknown" {
+		if o.Result != "unknown" || o.Canary {
+			continue
+		}
+		if ce := baseline[o.ID]; ce != nil && ce.Claimed {
+			retry = append(retry, o)
+		} else if ce == nil && cleanBase[baseOf(o.ID)] {
 			retry = append(retry, o)
 		}
 	}
@@ -378,24 +409,6 @@ func cmdCheck(args []string) {
 		}
 		if !ce.Claimed {
 			cleanFn[ce.Func] = false
-		}
-	}
-	// clause-level cleanliness: every instance (#n) of the obligation's base id was claimed at baseline; a new instance
-	// of such a clause (e.g. the same postcondition at a new return statement) that the solver refutes is a violation
-	baseOf := func(id string) string {
-		if i := strings.LastIndex(id, "#"); i >= 0 {
-			return id[:i]
-		}
-		return id
-	}
-	cleanBase := map[string]bool{}
-	for id, ce := range baseline {
-		b := baseOf(id)
-		if _, ok := cleanBase[b]; !ok {
-			cleanBase[b] = true
-		}
-		if !ce.Claimed {
-			cleanBase[b] = false
 		}
 	}
 	knownBy := map[string]*KnownFinding{}
@@ -441,7 +454,10 @@ func cmdCheck(args []string) {
 		case claimed:
 			nClaimed++
 			violations = append(violations, o)
-		case isNew && (cleanFn[o.Func] || cleanBase[baseOf(o.ID)]) && o.Result == "sat":
+		case isNew && cleanBase[baseOf(o.ID)]:
+			nClaimed++
+			violations = append(violations, o)
+		case isNew && cleanFn[o.Func] && o.Result == "sat":
 			nClaimed++
 			violations = append(violations, o)
 		default:
@@ -535,7 +551,7 @@ func runDemos(repo string, obls []*Obligation, knownBy map[string]*KnownFinding)
 }
 
 func writeReplay(prop string, o *Obligation, scfg SolveCfg) string {
-	dir := filepath.Join(verifRoot, "replays", prop)
+	dir := filepath.Join(outRoot, "replays", prop)
 	os.MkdirAll(dir, 0o755)
 	path := filepath.Join(dir, sanitize(o.ID)+".json")
 	model := ""
@@ -625,6 +641,6 @@ func writeEvidence(cr *checkRun, nClaimed, nDischarged int, bySolver, byClass ma
 		"assumptions": assumptions, "wall_s": round3(wall), "violations": len(violations),
 	}
 	data, _ := json.MarshalIndent(ev, "", " ")
-	os.MkdirAll(filepath.Join(verifRoot, "evidence"), 0o755)
-	os.WriteFile(filepath.Join(verifRoot, "evidence", cr.prop+".json"), append(data, '\n'), 0o644)
+	os.MkdirAll(filepath.Join(outRoot, "evidence"), 0o755)
+	os.WriteFile(filepath.Join(outRoot, "evidence", cr.prop+".json"), append(data, '\n'), 0o644)
 }
